@@ -1,3 +1,48 @@
+import Mhd.Model.Hash.Sha256
+import Mhd.Model.Hash.SpecSha256
 import Driver.Common
-/- stub: replaced by the builder of this engine -/
-def main : IO Unit := Driver.runEngine () (fun s _ => (s, ["bad-op"]))
+/-
+  Model driver of engine `hash`.  Script ops (one output line each):
+    init   <alg>             -> ok
+    update <alg> <off> <hex> -> ok | fault <site>
+    finish <alg>             -> digest <hex> | fault <site>
+    spec   <alg> <hex>       -> digest <hex>        (the specification, one-shot)
+-/
+open Mhd.Hash Driver
+
+structure St where
+  sha256 : Ctx (R8 UInt32)
+
+def showFault : Fault → String
+  | .bufWrite => "fault buf-write" | .bufFill => "fault buf-fill"
+  | .blockRead => "fault block-read" | .table => "fault table"
+
+/-- a context as `malloc` hands it out: arbitrary contents -/
+def junk {S : Type} (A : Alg S) : Ctx S :=
+  { H := A.zero, buffer := List.replicate A.B 0xAA, count := 12345, countHi := 77 }
+
+def doUpdate {S : Type} (A : Alg S) (c : Ctx S) (off : Nat) (d : List UInt8) : Ctx S × String :=
+  match update A c off d with
+  | .ok c' => (c', "ok")
+  | .error e => (c, showFault e)
+
+def doFinish {S : Type} (A : Alg S) (c : Ctx S) : Ctx S × String :=
+  match finish A c with
+  | .ok (dg, c') => (c', s!"digest {hexOfBytes dg}")
+  | .error e => (c, showFault e)
+
+def stepLine (s : St) (ws : List String) : St × List String :=
+  match ws with
+  | ["init", "sha256"] => ({ s with sha256 := init Sha256.alg s.sha256 }, ["ok"])
+  | ["update", "sha256", off, hex] =>
+    match off.toNat?, bytesOfHex hex with
+    | some o, some d => let (c, r) := doUpdate Sha256.alg s.sha256 o d; ({ s with sha256 := c }, [r])
+    | _, _ => (s, ["bad-op"])
+  | ["finish", "sha256"] => let (c, r) := doFinish Sha256.alg s.sha256; ({ s with sha256 := c }, [r])
+  | ["spec", "sha256", hex] =>
+    match bytesOfHex hex with
+    | some d => (s, [s!"digest {hexOfBytes (Spec.Sha256.hash d)}"])
+    | none => (s, ["bad-op"])
+  | _ => (s, ["bad-op"])
+
+def main : IO Unit := runEngine { sha256 := junk Sha256.alg } stepLine
